@@ -441,7 +441,24 @@ impl Prop for C18 {
             // EtherType (offset 12: source address) and where a VLAN-tagged frame has its inner EtherType (offset 16:
             // destination address), and look like one: 08 00, 86 dd, or a tag protocol id
             let framing_lookalike = !v6 && r.chance(1, 6);
-            let c = if v6 {
+            let c = if v6 && r.chance(1, 3) {
+                // special-purpose prefixes that code likes to treat specially: NAT64, 6to4, Teredo, IPv4-mapped and
+                // -compatible, link-local, unique-local, documentation, loopback
+                let v4: u32 = r.u32();
+                let lo = r.next_u64();
+                let a: u128 = match r.below(10) {
+                    0 | 1 => (0x0064_ff9bu128 << 96) | v4 as u128,
+                    2 => (0x2002u128 << 112) | ((v4 as u128) << 80) | lo as u128,
+                    3 => (0x2001_0000u128 << 96) | ((v4 as u128) << 64) | lo as u128,
+                    4 => (0xffffu128 << 32) | v4 as u128,
+                    5 => v4 as u128,
+                    6 => (0xfe80u128 << 112) | lo as u128,
+                    7 => (0xfd00u128 << 112) | ((lo as u128) << 8) | 1,
+                    8 => (0x0064_ff9b_0001u128 << 80) | v4 as u128,
+                    _ => 1,
+                };
+                Endpoint { ip: std::net::IpAddr::V6(std::net::Ipv6Addr::from(a)), port: 1024 + r.below(60000) as u16 }
+            } else if v6 {
                 Endpoint::v6(1 + r.below(200) as u16, 1024 + r.below(60000) as u16)
             } else if framing_lookalike {
                 let (a, b) = *r.pick(&[(0x08u8, 0x00u8), (0x86, 0xdd), (0x81, 0x00), (0x81, 0x00), (0x88, 0xa8), (0x91, 0x00)]);
@@ -504,7 +521,7 @@ impl Prop for C18 {
     fn run(s: &Scn, st: &mut RunStats) -> Result<(), Violation> {
         match &s.mode {
             Mode::Accounting { cfg, dispatchers, schedules, iters, sched, stats_calls, consumer_gone_after, shutdown_after_yields } => {
-                let plan = Arc::new(ExecPlan { via_analyzer: false, cfg: cfg.clone(), dispatchers: dispatchers.iter().map(|d| d.iter().map(|i| i.frame.clone()).collect()).collect(), stats_calls: *stats_calls, wait_for: Some(expected_wait(cfg, dispatchers)), consumer_gone_after: *consumer_gone_after, shutdown_after_yields: *shutdown_after_yields, idle_gap: None });
+                let plan = Arc::new(ExecPlan { via_analyzer: false, cfg: cfg.clone(), dispatchers: dispatchers.iter().map(|d| d.iter().map(|i| i.frame.clone()).collect()).collect(), stats_calls: *stats_calls, wait_for: Some(expected_wait(cfg, dispatchers)), consumer_gone_after: *consumer_gone_after, shutdown_after_yields: *shutdown_after_yields, idle_gap: None, reinit_pool: false });
                 st.evals = 0;
                 let mut seen_q = false;
                 let mut seen_d = false;
